@@ -5,9 +5,11 @@ import (
 	"fmt"
 	"go/constant"
 	"os"
+	"os/signal"
 	"path/filepath"
 	"sort"
 	"strings"
+	"syscall"
 	"time"
 
 	"golang.org/x/tools/go/ssa"
@@ -82,6 +84,8 @@ func RunProperty(cfg Config) int {
 		return 2
 	}
 	defer os.RemoveAll(tmp)
+	stopCleanup := cleanupOnSignal(tmp)
+	defer stopCleanup()
 	genFile := filepath.Join(tmp, "zz_gen.go")
 	if err := load.Generate(cfg.Repo, genFile); err != nil {
 		fmt.Println("INCONCLUSIVE cannot generate doc/tag tables:", err)
@@ -514,6 +518,8 @@ func Replay(cfg Config, path string) int {
 	}
 	tmp, _ := os.MkdirTemp("", "gosym-replay-")
 	defer os.RemoveAll(tmp)
+	stopCleanup := cleanupOnSignal(tmp)
+	defer stopCleanup()
 	genFile := filepath.Join(tmp, "zz_gen.go")
 	load.Generate(cfg.Repo, genFile)
 	ov[filepath.Join(cfg.Repo, "internal/zzverif/zz_gen.go")] = genFile
@@ -544,4 +550,22 @@ func Replay(cfg Config, path string) int {
 	}
 	fmt.Printf("assertion %s holds on the real code with these inputs\n", rec.Assert)
 	return 0
+}
+
+// cleanupOnSignal removes the scratch directory when the process is
+// interrupted (a closed output pipe, a timeout's SIGTERM, ^C), so that nothing
+// is left under $TMPDIR.
+func cleanupOnSignal(dir string) func() {
+	ch := make(chan os.Signal, 1)
+	signal.Notify(ch, syscall.SIGINT, syscall.SIGTERM, syscall.SIGHUP, syscall.SIGPIPE)
+	done := make(chan struct{})
+	go func() {
+		select {
+		case <-ch:
+			os.RemoveAll(dir)
+			os.Exit(2)
+		case <-done:
+		}
+	}()
+	return func() { signal.Stop(ch); close(done) }
 }
